@@ -255,6 +255,9 @@ class RelDjango:
         m.AuthorInfo.objects.bulk_create([m.AuthorInfo(id=r["id"], tag=_col(r["tag"])) for r in db["AuthorInfo"]])
         m.Author.objects.bulk_create([m.Author(id=r["id"], name=_col(r["name"]), age=_col(r["age"]), rank=_col(r["rank"]),
                                                org_id=_col(r["org"]), info_id=_col(r["info"]), home_id=_col(r["home"])) for r in db["Author"]])
+        for r in db["Author"]:              # self-references once all authors exist
+            if _col(r["boss"]) is not None:
+                m.Author.objects.filter(id=r["id"]).update(boss_id=_col(r["boss"]))
         m.Post.objects.bulk_create([m.Post(id=r["id"], title=_col(r["title"]), n=_col(r["n"]), author_id=_col(r["author"]),
                                            info_id=_col(r["info"])) for r in db["Post"]])
         m.Comment.objects.bulk_create([m.Comment(id=r["id"], text=_col(r["text"]), k=_col(r["k"]), post_id=_col(r["post"]))
@@ -314,6 +317,8 @@ class RelSa:
             info = relationship("AuthorInfo")
             home_id = sa.Column(sa.Integer, sa.ForeignKey("org.id"), nullable=False)     # a NOT NULL key
             home = relationship("Org", foreign_keys=[home_id])
+            boss_id = sa.Column(sa.Integer, sa.ForeignKey("author.id"))                   # self-referential
+            boss = relationship("Author", remote_side=[id], foreign_keys=[boss_id])
             posts = relationship("Post", back_populates="author")
             edited = relationship("Post", secondary=post_editors, back_populates="authors")
 
@@ -360,7 +365,7 @@ class RelSa:
         s.execute(sa.insert(M["AuthorInfo"].__table__), [dict(id=r["id"], tag=_col(r["tag"])) for r in db["AuthorInfo"]])
         s.execute(sa.insert(M["Org"].__table__), [dict(id=r["id"], name=_col(r["name"]), k=_col(r["k"]), lead_id=_col(r["lead"])) for r in db["Org"]])
         s.execute(sa.insert(M["Author"].__table__), [dict(id=r["id"], name=_col(r["name"]), age=_col(r["age"]), rank=_col(r["rank"]),
-                                                          org_id=_col(r["org"]), info_id=_col(r["info"]), home_id=_col(r["home"])) for r in db["Author"]])
+                                                          org_id=_col(r["org"]), info_id=_col(r["info"]), home_id=_col(r["home"]), boss_id=_col(r["boss"])) for r in db["Author"]])
         s.execute(sa.insert(M["Post"].__table__), [dict(id=r["id"], title=_col(r["title"]), n=_col(r["n"]), author_id=_col(r["author"]),
                                                         info_id=_col(r["info"])) for r in db["Post"]])
         s.execute(sa.insert(M["Comment"].__table__), [dict(id=r["id"], text=_col(r["text"]), k=_col(r["k"]), post_id=_col(r["post"]))
